@@ -331,6 +331,10 @@ def compile_logical_or_and_and_operator(compiler, expr, operator, args):
             # This is the first iteration. Don't actually introduce a
             # `BoolOp` yet; the unary case doesn't need it.
             ret = value
+            if len(args) > 1:
+                # The first operand's temporary variables hold only
+                # its own value, not the value of the whole form.
+                ret.temp_variables = []
             stmts = ret.stmts
             can_append = False
         elif value.stmts:
